@@ -299,6 +299,40 @@ def case_misc(col, p):
                     if getattr(fs2, 'extrap_x', None) != grids[0][1]:
                         col.violation('C07:from_phi:extrap_x', dict(p, d=d, pts=pts, grids='different per dimension'),
                                       {'got': repr(getattr(fs2, 'extrap_x', None)), 'first_grid': float(grids[0][1])})
+    elif kind == 'memoised_model':
+        # a model that keeps its per-grid results and hands the same object out again (caching models do): every call sequence over single
+        # and multiple grid sizes gives the same extrapolation as a model without memory, and the cached objects keep their x
+        pool = [40, 60, 80]
+        def xof(pts):
+            return (13 - pts // 10) / 64.0
+        def value(pts):
+            x = xof(pts)
+            return np.array([1.0, 3.0 + 2.0 * x - 5.0 * x * x, 2.0 - x, 7.0 + x * x, 1.0])
+        def fresh_model(a, pts):
+            fs = dadi.Spectrum(a * value(pts))
+            fs.extrap_x = xof(pts)
+            return fs
+        calls = [[40], [60], [40, 60], [60, 40, 80], [80], [40, 60, 80]]
+        want = {tuple(c): np.asarray(dadi.Numerics.make_extrap_func(fresh_model)(1.0, c).data).copy() for c in calls}
+        for seq in itertools.permutations(range(len(calls)), 3):
+            store = {}
+            def memo_model(a, pts):
+                if pts not in store:
+                    store[pts] = fresh_model(a, pts)
+                return store[pts]
+            f = dadi.Numerics.make_extrap_func(memo_model)
+            for pos, ci in enumerate(seq):
+                c = calls[ci]
+                r = f(1.0, c)
+                col.tick(transitions=1)
+                if not np.allclose(np.asarray(r.data)[1:-1], want[tuple(c)][1:-1], rtol=1e-13, atol=0):
+                    col.violation('C07:make_extrap_func:result_depends_on_call_history', dict(p, sequence=[calls[i] for i in seq], at=pos),
+                                  {'got': np.asarray(r.data), 'memoryless': want[tuple(c)]})
+                    break
+                bad = [q for q, fs in store.items() if fs.extrap_x != xof(q) or not np.array_equal(np.asarray(fs.data)[1:-1], value(q)[1:-1])]
+                if bad:
+                    col.violation('C07:make_extrap_func:model_results_modified', dict(p, sequence=[calls[i] for i in seq], at=pos), {'grids': bad})
+                    break
     elif kind == 'missing_x':
         f = dadi.Numerics.make_extrap_func(lambda pts: np.array([1.0 * pts]))
         try:
@@ -386,7 +420,7 @@ def run(ctx):
                             if mode == 'lin':
                                 cases.append({'kind': 'fallback', 'k': k, 'order': order, 'target': sgn * 0.3, 'fail_mag': fail_mag,
                                               'mode': mode, 'rtype': 'array', 'sign_change': True})
-    for what in ('no_extrap', 'scalar_pts', 'extrap_x_recorded', 'missing_x'):
+    for what in ('no_extrap', 'scalar_pts', 'extrap_x_recorded', 'missing_x', 'memoised_model'):
         cases.append({'kind': 'misc', 'what': what})
     # determinism self-test: first case twice
     from mc.evidence import Collector
